@@ -12,15 +12,10 @@
 // See the License for the specific language governing permissions and
 // limitations under the License.
 
-use super::{separator, AttrBody, EventOrEnd, IncrementalReconParser, ItemsKind, RecBody, Span};
+use super::{EventOrEnd, IncrementalReconParser, ParseIterator, Span};
 use crate::hasher::HashError;
-use nom::branch::alt;
-use nom::bytes::complete::is_not;
-use nom::character::streaming as char_str;
-use nom::combinator::{map, opt};
 use nom::error::ErrorKind;
-use nom::sequence::preceded;
-use nom::{Finish, IResult, Parser};
+use nom::{Finish, Parser};
 use smallvec::SmallVec;
 use std::hash::{Hash, Hasher};
 use swimos_form::read::ReadEvent;
@@ -84,7 +79,11 @@ impl HashParser {
                         ReadEvent::StartAttribute(_) => {
                             event.hash(hasher);
 
-                            if !has_next && is_implicit_record(input) {
+                            if !has_next
+                                && parser
+                                    .as_ref()
+                                    .is_some_and(|p| is_implicit_record(p, input))
+                            {
                                 closing_brackets.push(true);
                                 ReadEvent::StartBody.hash(hasher);
                             } else {
@@ -122,70 +121,55 @@ impl Default for HashParser {
     }
 }
 
-/// State showing the validation progress of whether the
-/// current attribute body is an implicit record or not.
-#[derive(Debug, Clone, Copy)]
-enum ValidationState {
-    /// Validation is still in progress and we are at the
-    /// top level in the body of an attribute.
-    Top,
-    /// Validation is still in progress and we are
-    /// N levels deep inside nested records or attributes.
-    Nested(usize),
-    /// Validation completed with a result.
-    Done(bool),
-}
-
-impl ValidationState {
-    fn increment(level: usize) -> ValidationState {
-        ValidationState::Nested(level + 1)
-    }
-
-    fn decrement(level: usize) -> ValidationState {
-        if level == 1 {
-            ValidationState::Top
-        } else {
-            ValidationState::Nested(level - 1)
-        }
-    }
-
-    fn finish(result: bool) -> ValidationState {
-        ValidationState::Done(result)
-    }
-}
-
-fn is_implicit_record(input: Span) -> bool {
-    let mut result: IResult<Span<'_>, ValidationState> = Ok((input, ValidationState::Top));
-
-    loop {
-        result = match result {
-            Ok((rest, ValidationState::Top)) => preceded(
-                opt(is_not(",;:{()")),
-                alt((
-                    map(separator, |_| ValidationState::finish(true)),
-                    map(char_str::char(':'), |_| ValidationState::finish(true)),
-                    map(char_str::char('{'), |_| ValidationState::increment(0)),
-                    map(char_str::char('('), |_| ValidationState::increment(0)),
-                    map(char_str::char(AttrBody::end_delim()), |_| {
-                        ValidationState::finish(false)
-                    }),
-                )),
-            )(rest),
-            Ok((rest, ValidationState::Nested(level))) => preceded(
-                opt(is_not("{()}")),
-                alt((
-                    map(char_str::char('{'), |_| ValidationState::increment(level)),
-                    map(char_str::char('('), |_| ValidationState::increment(level)),
-                    map(char_str::char(AttrBody::end_delim()), |_| {
-                        ValidationState::decrement(level)
-                    }),
-                    map(char_str::char(RecBody::end_delim()), |_| {
-                        ValidationState::decrement(level)
-                    }),
-                )),
-            )(rest),
-            Ok((_, ValidationState::Done(result))) => return result,
+/// Determines whether the body of the attribute that has just been opened is an implicit record: a body
+/// with more than one item, or with a single slot, is the same value as that body wrapped in braces.
+/// The remainder of the input is read ahead, with a copy of the parser, up to the end of the attribute
+/// (so that separators of every kind and the content of string literals are interpreted exactly as
+/// they will be when the body is consumed).
+fn is_implicit_record(parser: &IncrementalReconParser, input: Span<'_>) -> bool {
+    let look_ahead = ParseIterator {
+        input,
+        parser: Some(parser.clone()),
+        pending: None,
+    };
+    let mut depth: usize = 0;
+    let mut items: usize = 0;
+    for event in look_ahead {
+        match event {
+            Ok(ReadEvent::StartAttribute(_)) => depth += 1,
+            Ok(ReadEvent::StartBody) => {
+                if depth == 0 {
+                    items += 1;
+                }
+                depth += 1;
+            }
+            Ok(ReadEvent::EndAttribute) => {
+                if depth == 0 {
+                    return false;
+                }
+                depth -= 1;
+            }
+            Ok(ReadEvent::EndRecord) => {
+                if depth == 0 {
+                    return false;
+                }
+                depth -= 1;
+            }
+            Ok(ReadEvent::Slot) => {
+                if depth == 0 {
+                    return true;
+                }
+            }
+            Ok(_) => {
+                if depth == 0 {
+                    items += 1;
+                }
+            }
             Err(_) => return false,
         }
+        if items > 1 {
+            return true;
+        }
     }
+    false
 }
